@@ -59,7 +59,7 @@ def parseOp1 (fields : List String) : Option Op :=
   | ["RN"] => some .routersNil
   | ["RU", r, vhs] => do
     let vs ← (splitList "," vhs).mapM parseVHost
-    pure (.addOrUpdateRouters ⟨r, vs⟩)
+    pure (.addOrUpdateRouters { name := r, vhosts := vs })
   | ["RA", r, d, rt] => (parseRoute rt).map (fun x => .addRoute r (unDom d) x)
   | ["RR", r, d] => some (.removeAllRoutes r (unDom d))
   | ["CP", c, tag, hs] => do
